@@ -125,6 +125,7 @@ type c01Ctl struct {
 	RCtx, RSt, ErrKind int
 	ErrCode            int32
 	ErrMsg             string
+	EmptyOuts          bool
 }
 
 type c01Plan struct {
@@ -171,7 +172,9 @@ func c01MakePlan(f *c01Fn, key string, ctl c01Ctl) c01Plan {
 	for i, t := range f.argT {
 		if f.Dirs[i] == 'o' {
 			v := reflect.New(t).Elem()
-			fillRandom(rng, v, 3)
+			if !ctl.EmptyOuts {
+				fillRandom(rng, v, 3)
+			}
 			p.outs = append(p.outs, v)
 		}
 	}
@@ -707,7 +710,7 @@ func c01Prepare(proxy *e2e.E2E, k *c01Call) *c01Prepared {
 		p.opts = append(p.opts, p.stMap)
 	}
 	p.key = c01Key(f.Name, p.ins, p.ctxMap, p.stMap)
-	ctl := c01Ctl{RCtx: k.RCtx, RSt: k.RSt, ErrKind: k.ErrKind, ErrCode: k.ErrCode, ErrMsg: string(k.ErrMsg)}
+	ctl := c01Ctl{RCtx: k.RCtx, RSt: k.RSt, ErrKind: k.ErrKind, ErrCode: k.ErrCode, ErrMsg: string(k.ErrMsg), EmptyOuts: k.EmptyOuts}
 	c01Mu.Lock()
 	if old, ok := c01Ctls[p.key]; ok {
 		ctl = old // two callers passing identical inputs get the identical behaviour
